@@ -94,6 +94,7 @@ class Kernel(object):
         self.events = []
         self.shape = hashlib.blake2b(digest_size=8)   # (actor, kind) sequence only
         self.counters = {}
+        self.io = []                # (seq, task, kind, endpoint, bytes): transport history
         self.registry = {}          # free-form: ports, listeners ... used by seams
 
     # ------------------------------------------------------------------ log
